@@ -68,6 +68,7 @@ OpResult World::op_make_face(const Op &op) {
     for (auto &ft : op.faults) if (ft.kind.compare(0, 4, "OVR_") == 0) { if (override_fn) override_fn(*f.store, ft); if (ft.kind != "OVR_SILF" && ft.kind != "OVR_SILFPROG" && ft.kind != "OVR_FEAT") any_override = true; else any_synth = true; }
     for (auto &ft : op.faults) if (ft.kind.compare(0, 4, "OVR_") != 0) { f.faulted = true; if (!is_file_fn(ft.tag) && ft.kind != "FILE_TRUNCATED" && ft.kind != "DIR_BITROT") any_content = true; }
     f.pristine_gids = !f.faulted && !any_override;
+    { FontImage tmp; auto sf = f.store->tables.find(mktag("Silf")); if (sf != f.store->tables.end()) tmp.tables[sf->first] = sf->second; f.has_just = font_has_just(tmp); }
     if (any_override) f.faulted = f.faulted; // overrides are legal storage formats, not faults
     gr_face *face = 0;
     const size_t alloc_before = alloc_live();
@@ -224,6 +225,11 @@ OpResult World::op_make_seg(const Op &op, bool is_probe, bool shared_font) {
 void World::check_lines(SegObj &s, const char *after) {
     if (!c19_oracle || s.broken) return;
     API("line-walk", BUDGET_LOAD);
+    if (g_run.tracing) {
+        std::string l = std::string("LINES after ") + after + ":";
+        for (size_t k = 0; k < s.order.size(); ++k) { const gr_slot *sl = s.order[k], *nx = gr_slot_next_in_segment(sl), *pv = gr_slot_prev_in_segment(sl); auto name = [&](const gr_slot *x) { if (!x) return std::string("-"); for (size_t q = 0; q < s.order.size(); ++q) if (s.order[q] == x) return std::to_string(q); return std::string("?"); }; l += strf(" [%zu prev=%s next=%s gid%u]", k, name(pv).c_str(), name(nx).c_str(), gr_slot_gid(sl)); }
+        g_run.trace.push_back(l);
+    }
     const size_t n = s.order.size();
     for (size_t li = 0; li < s.line_starts.size(); ++li) {
         size_t a = s.line_starts[li], b = li + 1 < s.line_starts.size() ? s.line_starts[li + 1] : n;
@@ -239,7 +245,7 @@ void World::check_lines(SegObj &s, const char *after) {
     }
     const FaceObj &f = faces[size_t(s.face)];
     const FontImage *fi = g_corpus.find(f.font);
-    bool gid_clause = f.pristine_gids && fi && !font_has_just(*fi);
+    bool gid_clause = f.pristine_gids && fi && !f.has_just;
     for (size_t k = 0; k < n; ++k) {
         float x = gr_slot_origin_X(s.order[k]), y = gr_slot_origin_Y(s.order[k]);
         if (!std::isfinite(x) || !std::isfinite(y)) { violation("C19:origin-non-finite", strf("after %s: slot %zu origin (%g,%g)", after, k, x, y)); s.broken = true; return; }
